@@ -37,7 +37,7 @@ from instr import diskcache
 ID = 'C05'
 COQ_PROP = 'C05'
 LEVEL = 'proof'
-TRANSLATE = ['sql', 'disk', 'format']      # format: Cache.__init__ (a handle opened while others write)
+TRANSLATE = ['sql', 'disk', 'format', 'fanout', 'persistent']      # format: Cache.__init__ (a handle opened while others write)
 TRUSTED = [
     'SQLite serialises BEGIN IMMEDIATE ... COMMIT, WAL readers see the last committed snapshot, CPython thread-local connections behave as '
     'separate connections, processes behave like threads with their own objects: exercised by the schedule driver of this check, not proved',
